@@ -573,7 +573,15 @@ impl<'a> Cx<'a> {
                     Kind::AccessParam if self.c.n("nested", 3) == 0 => {
                         // the field of a blob-typed field; the inner blob is declared after (or before) the outer one
                         let later = self.c.n("inner-later", 3) != 0;
-                        let outer = "Zzo :: blob { zzin: Zzi, zzk: int }\n".to_string();
+                        // how the outer blob mentions the inner one: directly, or inside another type
+                        let wrap = self.c.n("wrap", 4);
+                        let outer = match wrap {
+                            0 => "Zzo :: blob { zzin: Zzi, zzk: int }\n",
+                            1 => "Zzo :: blob { zzin: Maybe(Zzi), zzk: int }\n",
+                            2 => "Zzbox :: blob(*T) { zzb: *T }\nZzo :: blob { zzin: Zzbox(Zzi), zzk: int }\n",
+                            _ => "Zzo :: blob { zzin: (Zzi, int), zzk: int }\n",
+                        }
+                        .to_string();
                         let inner = "Zzi :: blob { zzv: int, zzw: str }\n".to_string();
                         if later {
                             prelude.push(outer);
@@ -583,11 +591,30 @@ impl<'a> Cx<'a> {
                             prelude.push(outer);
                         }
                         let nf = if self.good { ["zzv", "zzw"][self.c.n("nf", 2)] } else { "zznope" };
-                        setup.push(self.helper(format!("zzf :: {} zzp: Zzo -> do", self.kw("kw")), vec![format!("zzp.zzin.{}", nf)]));
+                        let access: Vec<String> = match wrap {
+                            0 => vec![format!("zzp.zzin.{}", nf)],
+                            1 => vec!["case zzp.zzin do".to_string(), format!("    Just zze -> zze.{} end", nf), format!("    else {} end", if nf == "zzw" { "\"\"" } else { "0" }), "end".to_string()],
+                            2 => vec![format!("zzp.zzin.zzb.{}", nf)],
+                            _ => vec![format!("zzp.zzin[0].{}", nf)],
+                        };
+                        setup.push(self.helper(format!("zzf :: {} zzp: Zzo -> do", self.kw("kw")), access));
                         let called = self.c.n("call", 3) != 0;
-                        form = format!("nested-blob-declared-{}/{}", if later { "later" } else { "earlier" }, if called { "helper-called" } else { "helper-never-called" });
+                        let via = ["", "/in-maybe", "/in-generic-blob", "/in-tuple"][wrap];
+                        form = format!(
+                            "nested-blob-declared-{}{}/{}",
+                            if later { "later" } else { "earlier" },
+                            via,
+                            if called { "helper-called" } else { "helper-never-called" }
+                        );
                         if called {
-                            Core::Expr("zzf(Zzo { zzin: Zzi { zzv: 1, zzw: \"a\" }, zzk: 2 })".into())
+                            let iv = "Zzi { zzv: 1, zzw: \"a\" }";
+                            let field = match wrap {
+                                0 => iv.to_string(),
+                                1 => format!("Maybe.Just {}", iv),
+                                2 => format!("Zzbox {{ zzb: {} }}", iv),
+                                _ => format!("({}, 1)", iv),
+                            };
+                            Core::Expr(format!("zzf(Zzo {{ zzin: {}, zzk: 2 }})", field))
                         } else {
                             Core::Expr("0".into())
                         }
